@@ -55,6 +55,37 @@ def variants(state, data, n):
     else:
         out["smc-order-first"] = build_smc_order(state, data, exts[0])
         out["smc-order-last"] = build_smc_order(state, data, exts[-1])
+    # shape first, fill afterwards: every clone is created with one data point, the rest are added later
+    # (also into clones deep in the tree), as a caller of the public API may do
+    dmap = {d.idx: d for d in data}
+    if any(len(b) > 1 for b, _ in state[0]):
+        skeleton = (frozenset((frozenset([min(b)]), (frozenset([min(p)]) if p is not None else None)) for b, p in state[0]), frozenset())
+        t2 = oracle.build(skeleton, data)
+        nd = t2.node_data
+        name_of = {min(dp.idx for dp in v): k for k, v in nd.items() if k != t2.outlier_node_name}
+        for b, _ in sorted(state[0], key=lambda bp: sorted(bp[0])):
+            for i in sorted(b)[1:]:
+                t2.add_data_point_to_node(dmap[i], name_of[min(b)])
+        for i in sorted(state[1]):
+            t2.add_data_point_to_outliers(dmap[i])
+        out["fill-after-build"] = t2
+        # a data point that arrives by a Gibbs move (copy, remove, add) from the outlier set / another clone
+        big = sorted([b for b, _ in state[0] if len(b) > 1], key=sorted)[-1]
+        i = max(big)
+        t3 = out["fill-after-build"].copy()
+        src = name_of[min(big)]
+        others = [k for k in t3.nodes if k != src]
+        t3.remove_data_point_from_node(dmap[i], src)
+        if others:
+            t3.add_data_point_to_node(dmap[i], others[0])
+            t3 = t3.copy()
+            t3.remove_data_point_from_node(dmap[i], others[0])
+        else:
+            t3.add_data_point_to_outliers(dmap[i])
+            t3 = t3.copy()
+            t3.remove_data_point_from_node(dmap[i], t3.outlier_node_name)
+        t3.add_data_point_to_node(dmap[i], src)
+        out["moved-point"] = t3
     # via prune-and-regraft back to the same place
     base = oracle.build(state, data)
     for v in base.nodes:
